@@ -36,8 +36,8 @@ class EngineCheck(Check):
     quick_nodes = (2, 8)
     thorough_nodes = (2, 12)
     p_feat = 35
-    quick_examples = 250
-    thorough_examples = 1200
+    quick_examples = 1200
+    thorough_examples = 3000
     assumptions = (
         'CPython 3.12 BaseEventLoop._run_once (ready FIFO, timer heap) is the trusted scheduler core',
         'external completions are delivered at loop-iteration boundaries only',
